@@ -155,3 +155,36 @@ def outline_close(a, b, tol):
     if any(abs(x - y) > tol for x, y in zip(ba, bb)):
         return False
     return hausdorff_vertices(a, b) <= tol
+
+
+def winding_nonzero(p, poly):
+    """nonzero winding membership of point p in the closed polygon poly"""
+    w = 0
+    n = len(poly)
+    px, py = p
+    for i in range(n):
+        ax, ay = poly[i]
+        bx, by = poly[(i + 1) % n]
+        cr = (bx - ax) * (py - ay) - (by - ay) * (px - ax)
+        if ay <= py:
+            if by > py and cr > 0:
+                w += 1
+        elif by <= py and cr < 0:
+            w -= 1
+    return w != 0
+
+
+def region_close(a, b, tol):
+    """the two outlines bound the same region: equal bounding boxes, and every vertex of one lies within tol of the other's
+    boundary or inside it (an outline may contain loops that stay inside the region, e.g. a round join on collinear points
+    drawn as a full circle - the region is the same)"""
+    if not a or not b:
+        return not a and not b
+    ba, bb = bbox_of(a), bbox_of(b)
+    if any(abs(x - y) > tol for x, y in zip(ba, bb)):
+        return False
+    for P, Q in ((a, b), (b, a)):
+        for v in P:
+            if boundary_dist(v, Q) > tol and not winding_nonzero(v, Q):
+                return False
+    return True
